@@ -84,6 +84,7 @@ def parse_res_text(text, n):
 def drive(rec):
     import numpy as np
     from chmpy.crystal import Crystal
+    xtal.other_structures_loaded_earlier()        # the process has read, used and exported other structures before
     fmt, via, prov = rec["fmt"], rec["via"], rec["provenance"]
     n, u = rec["n"], rec["u"]
     asym = [{"z": s["z"], "sym": xtal.SYMBOLS[s["z"]], "label": s["label"], "p": [x % n for x in s["p"]] if False else s["p"],
